@@ -33,6 +33,41 @@ class HarnessError(Exception):
     pass
 
 
+class OutOfDomain(Exception):
+    """The generated case turned out to lie outside the property's stated domain (counted, never a verdict)."""
+
+    def __init__(self, why):
+        self.why = why
+        super().__init__(why)
+
+
+F32_MAX = (2 - 2**-23) * 2.0**127
+
+
+def _has_big_float(x, depth=0):
+    if depth > 40:
+        return False
+    if isinstance(x, float):
+        return x == x and abs(x) != float("inf") and abs(x) > F32_MAX
+    if isinstance(x, int) and not isinstance(x, bool):
+        return abs(x) > F32_MAX
+    if isinstance(x, dict):
+        return any(_has_big_float(v, depth + 1) for v in x.values())
+    if isinstance(x, (list, tuple)):
+        return any(_has_big_float(v, depth + 1) for v in x)
+    if hasattr(x, "items") and not isinstance(x, (str, bytes)):
+        try:
+            return any(_has_big_float(v, depth + 1) for v in x.values())
+        except Exception:
+            return False
+    if hasattr(x, "__iter__") and not isinstance(x, (str, bytes, bytearray)):
+        try:
+            return any(_has_big_float(v, depth + 1) for v in x)
+        except Exception:
+            return False
+    return False
+
+
 def innermost_frame(exc):
     tb = exc.__traceback__
     name = None
@@ -52,6 +87,12 @@ def guard(kind, fn, *a, **k):
         raise
     except RecursionError as e:
         raise Violation(kind, "RecursionError", exc=e)
+    except OverflowError as e:
+        # a finite double beyond IEEE single range that the writer placed under a 'float' branch/leaf:
+        # outside every statement's domain ("float leaves representable in the target width")
+        if "float too large to pack" in str(e) and (_has_big_float(a) or _has_big_float(k)):
+            raise OutOfDomain("double beyond single range written under float")
+        raise Violation(kind, f"{type(e).__name__}: {str(e)[:300]}", exc=e)
     except Exception as e:  # noqa
         raise Violation(kind, f"{type(e).__name__}: {str(e)[:300]}", exc=e)
 
@@ -162,6 +203,10 @@ def execute(check, case, stats, shard_seed=None, keep_sample=False):
         return None
     except HarnessError:
         raise
+    except OutOfDomain as e:
+        l = "domain:" + e.why
+        stats.labels[l] = stats.labels.get(l, 0) + 1
+        return None
     except Exception as e:  # bug in the harness / oracle: never a violation
         case = pristine
         stats.harness_errors.append(
@@ -270,6 +315,8 @@ def shrink_failure(check, tier, signature, failure, known, n_examples, budget_s)
         case = copy.deepcopy(case)
         try:
             check.run_case(case)
+        except OutOfDomain:
+            return
         except Violation as v:
             case = pristine
             if v.signature == signature and not match_known(check, known, signature, tagged.enc(case), v.message):
@@ -346,6 +393,9 @@ def replay(check, path):
         return 2
     try:
         check.run_case(case)
+    except OutOfDomain as e:
+        print(f"replay {path}: case lies outside the property's domain ({e.why}); nothing asserted")
+        return 0
     except Violation as v:
         print(f"  {v.signature}: {v.message}")
         print(f"VIOLATION property={check.pid} replay={path}")
